@@ -178,6 +178,20 @@ PLANS = {
         "assumptions": COMMON_ASSUMPTIONS + ["repeated large units (known finding D22) are judged only through the labelled probe",
                                              "a fraction directly after a unit and decimal coefficients of large units are 'unspecified'"],
     },
+    "C14": lambda tier: {
+        "level": "exploration",
+        "stages": [main_stage(40, 300, tier)],
+        "require": ["merged_tokens_checked", "unmerged_tokens_compared", "single_numeral_tokens_renormalised"],
+        "rule": "seeded worlds loaded twice from the same bytes, with and without pathRewritePlugin (numeric joining with/without "
+                "enableNormalize, katakana-OOV joining with minLength 1-4, both orders; random input-text and OOV stacks, user dictionaries; "
+                "numeral-POS and non-numeral-POS words over digits / kanji numerals / units, multi-character words over numeral characters, "
+                "short katakana words of assorted POS) x texts rich in numerals, separators and katakana runs x modes A/B/C. Tokens are "
+                "matched on normalised-text positions: every with-plugin token must be one base token unchanged (all observable fields) or "
+                "the union of consecutive base tokens with concatenated dictionary-side surface and the prescribed POS; a single numeral "
+                "token may only have its normalised form / word id rewritten. distinct_nontrivial = distinct (world,mode,text) containing "
+                "a real merge that passed",
+        "assumptions": COMMON_ASSUMPTIONS + ["single-token numeral normalisation counts as a degenerate merge (the repository's own tests require 一 -> 1)"],
+    },
 }
 
 
